@@ -61,9 +61,16 @@ def mp():
     return _mp
 
 
+# analytic at the origin: a real part that is exactly 0.0 or -0.0 is a point like any other
+ZERO_OK = {'exp', 'exp2', 'expm1', 'log1p', 'sin', 'cos', 'tan', 'sec', 'sinh', 'cosh', 'tanh', 'sech', 'arcsin', 'arccos', 'arctan',
+           'arcsinh', 'arctanh'}
+
+
 def draw_x(rng, fname):
     """A real base point in the domain of fname, away from its singular points."""
     u = rng.random()
+    if fname in ZERO_OK and rng.random() < 0.04:
+        return 0.0 if rng.random() < 0.6 else -0.0          # real part exactly zero (either sign of zero)
     if fname in ('log', 'log2', 'log10', 'sqrt', 'powr'):
         if u < 0.12:
             return float(10.0 ** rng.uniform(-30, -14))       # tiny but perfectly regular arguments (absolute thresholds!)
@@ -96,7 +103,7 @@ def draw_x(rng, fname):
 
 
 def draw_h(rng, x, force_all=False):
-    s = max(abs(x), 1e-3) if abs(x) >= 1e-12 else abs(x)     # (tiny base points of log / sqrt / powers: perturbations relative to x)
+    s = max(abs(x), 1e-3) if (abs(x) >= 1e-12 or x == 0.0) else abs(x)     # (tiny base points of log / sqrt / powers: perturbations relative to x)
     h = []
     for _ in range(3):
         if not force_all and rng.random() < 0.15:
@@ -384,7 +391,7 @@ def run_case(case, ctx):
             ctx.nontrivial(_nontrivial_key(op, h1))
     elif kind == 'mc_components':
         f, x, hrel = case['f'], case['x'], case['hrel']
-        h = hrel * (max(abs(x), 1e-3) if abs(x) >= 1e-12 else abs(x))
+        h = hrel * (max(abs(x), 1e-3) if (abs(x) >= 1e-12 or x == 0.0) else abs(x))
         special = {'pow2.5': (lambda z: z ** 2.5, lambda t: m.power(t, m.mpf(2.5))), 'pow3': (lambda z: z ** 3, lambda t: t ** 3),
                    'pow-2': (lambda z: z ** -2, lambda t: t ** -2), 'recip': (lambda z: 1.0 / z, lambda t: 1 / t),
                    'x_over_1px2': (lambda z: z / (1.0 + z * z), lambda t: t / (1 + t * t))}
@@ -410,7 +417,7 @@ def run_case(case, ctx):
         except Exception:
             ctx.count('skipped_reference_derivative_failed')
             return
-        xs_ = max(abs(x), 1.0) if abs(x) >= 1e-12 else abs(x)
+        xs_ = max(abs(x), 1.0) if (abs(x) >= 1e-12 or x == 0.0) else abs(x)
         s1 = abs(f1) + abs(f0) / xs_                     # natural sizes of the two derivatives at this point
         s2 = abs(f2) + abs(f1) / xs_ + abs(f0) / xs_ ** 2
         d1, d2 = z1.imag / h, z2.imag / (h * h)
